@@ -122,6 +122,29 @@ pub fn spelling_oracle(c: &SpellCase, cx: &mut CaseCtx) -> Result<(), String> {
         if got.as_bytes() != want_sig {
             return Err(format!("ruma_signatures::canonical_json gives {:?}, expected {:?}", show(got.as_bytes()), show(&want_sig)));
         }
+        // only the TOP-LEVEL `signatures` / `unsigned` members are left out: the same names deeper
+        // in the value (objects, objects inside arrays) are ordinary members
+        let mut wrapped = m.clone();
+        wrapped.insert("signatures".into(), V::Obj([("s".to_owned(), V::Int(1))].into_iter().collect()));
+        wrapped.insert("unsigned".into(), v.clone());
+        let inner: std::collections::BTreeMap<String, V> = [
+            ("signatures".to_owned(), v.clone()),
+            ("unsigned".to_owned(), V::Int(2)),
+            ("hashes".to_owned(), V::Null),
+            ("list".to_owned(), V::Arr(vec![V::Obj([("unsigned".to_owned(), V::Int(3)), ("signatures".to_owned(), V::Str("x".into()))].into_iter().collect())])),
+        ]
+        .into_iter()
+        .collect();
+        wrapped.insert("nested".into(), V::Obj(inner));
+        let wobj = match from_ref(&V::Obj(wrapped.clone())) {
+            CanonicalJsonValue::Object(o) => o,
+            _ => unreachable!(),
+        };
+        let got = ruma_signatures::canonical_json(&wobj).map_err(|e| format!("ruma_signatures::canonical_json failed: {e}"))?;
+        let want_sig = cjson::canon_without(&wrapped, &["signatures", "unsigned"]);
+        if got.as_bytes() != want_sig {
+            return Err(format!("ruma_signatures::canonical_json with nested members named signatures / unsigned / hashes gives {:?}, expected {:?}", show(got.as_bytes()), show(&want_sig)));
+        }
     }
     // classification
     let unsorted = c.s.has_unsorted_object();
